@@ -47,6 +47,7 @@ pub fn src_name(s: &Src) -> &'static str {
     Src::Raw(_) => "create(hot)",
     Src::Iter(_) | Src::IntoIter(_) => "from_iter",
     Src::Create(_) => "create",
+    Src::CreatePolling(_) => "create(polling)",
     Src::Of(_) => "of",
     Src::OfFn(_) => "of_fn",
     Src::Start(_) => "start",
